@@ -120,7 +120,7 @@ func (s *Service) proxyToSingleEndpoint(ctx context.Context, w http.ResponseWrit
 		}
 	}
 
-	w.WriteHeader(resp.StatusCode)
+	w.WriteHeader(core.RelayableStatus(resp.StatusCode))
 
 	// Stream the response through
 	rlog.Debug("starting response stream")
